@@ -439,11 +439,31 @@ theorem isi_paddingField (d : Obj) (c : Cls) : isinstance (.paddingField d) c =
 @[simp] theorem error_bind {ε α β : Type} (e : ε) (f : α → Except ε β) : (Except.error e >>= f) = .error e := rfl
 @[simp] theorem throw_eq {ε α : Type} (e : ε) : (throw e : Except ε α) = .error e := rfl
 
-/-- unfold generated code one level: class tests on known constructors are decided, `Except` plumbing is normalised -/
+/-- `x = f(); return x` and `return f()` have the same normal form -/
+theorem bind_ok_self {ε α : Type} (x : Except ε α) : (x >>= fun a => Except.ok a) = x := by
+  cases x <;> rfl
+
+/-- the same for a pair that is taken apart and put together again -/
+theorem bind_ok_pair {ε α β : Type} (x : Except ε (α × β)) : (x >>= fun p => Except.ok (p.1, p.2)) = x := by
+  cases x <;> rfl
+
+theorem ite_bind {ε α β : Type} (c : Prop) [Decidable c] (x y : Except ε α) (f : α → Except ε β) :
+    ((if c then x else y) >>= f) = if c then x >>= f else y >>= f := by
+  split <;> rfl
+
+theorem except_bind_assoc {ε α β γ : Type} (x : Except ε α) (f : α → Except ε β) (g : β → Except ε γ) :
+    (x >>= f >>= g) = x >>= fun a => f a >>= g := by
+  cases x <;> rfl
+
+/-- unfold generated code one level and NORMALISE it: class tests on known constructors are decided, binds are associated to the
+    right, `x >>= ok` is `x`, `throw` / `pure` are constructors, lookups in constant tables and on `Option`s are evaluated, the
+    private helpers the translator found through the call graph (`codec_helper`) are unfolded -/
 macro "codec_simp" "[" args:Lean.Parser.Tactic.simpLemma,* "]" : tactic =>
   `(tactic| simp (config := {decide := true}) only [isi_boolean, isi_signed, isi_unsigned, isi_byte, isi_utf8, isi_float, isi_void,
       isi_fixedArray, isi_varArray, isi_structure, isi_union, isi_delimited, isi_service, isi_field, isi_paddingField,
-      if_true, if_false, ok_bind, pure_eq_ok, error_bind, throw_eq, Bool.or_self, Bool.or_false, Bool.false_or, $args,*])
+      if_true, if_false, ok_bind, pure_eq_ok, error_bind, throw_eq, Bool.or_self, Bool.or_false, Bool.false_or,
+      bind_ok_self, bind_ok_pair, except_bind_assoc, Py.constLookup, Py.optGet, Option.isNone, Option.isSome, codec_helper,
+      $args,*])
 
 
 theorem AgreeWith.elim {α β : Type} {f : α → β} {g : Gen.ReaderS} {x : Py.M (β × Gen.ReaderS)} {y : Except Wire.Err (α × Rd)}
@@ -910,21 +930,28 @@ theorem gen_delimited (i h : Obj) (x a : Nat) (hs : okT (.delimited i h x a) = t
   obtain ⟨e1, e2, e3⟩ := read_step g Wire.headerBits hg
   have hrem := gen_remaining_bits (advance g Wire.headerBits) e3.2
   codec_simp [Gen.Codec.deserialize_composite_rec, Obj.delimiter_header_type, Obj.inner_type, Obj.bit_length, e1, hrem, unwrapDelimR]
-  rw [e2]
-  by_cases hc : (readBits (toRd g) Wire.headerBits).1 * 8 > (readBits (toRd g) Wire.headerBits).2.remaining
-  · rw [if_pos (decide_eq_true hc), if_pos hc]
+  rw [← e2]
+  by_cases hc : (readBits (toRd g) Wire.headerBits).1 * 8 > (toRd (advance g Wire.headerBits)).remaining
+  · -- the guard, in whichever orientation the source spells it
+    have hc1 : decide ((toRd (advance g Wire.headerBits)).remaining < (readBits (toRd g) Wire.headerBits).1 * 8) = true :=
+      decide_eq_true hc
+    have hc2 : decide ((readBits (toRd g) Wire.headerBits).1 * 8 ≤ (toRd (advance g Wire.headerBits)).remaining) = false :=
+      decide_eq_false (by omega)
     obtain ⟨s, hmsg⟩ := message_name_ok i hsu
-    simp only [hmsg, ok_bind]
+    simp only [hc, hc1, hc2, decide_true, decide_false, if_true, if_false, Bool.false_eq_true, hmsg, ok_bind, hrem, error_bind]
     exact AgreeWith.intro_err .delimiterHeader
-  · rw [if_neg (by rw [decide_eq_false hc]; exact Bool.false_ne_true), if_neg hc]
+  · have hc1 : decide ((toRd (advance g Wire.headerBits)).remaining < (readBits (toRd g) Wire.headerBits).1 * 8) = false :=
+      decide_eq_false hc
+    have hc2 : decide ((readBits (toRd g) Wire.headerBits).1 * 8 ≤ (toRd (advance g Wire.headerBits)).remaining) = true :=
+      decide_eq_true (by omega)
     obtain ⟨b1, b2, b3⟩ := gen_bounded_subreader (advance g Wire.headerBits) ((readBits (toRd g) Wire.headerBits).1 * 8)
     have hcomp : isCompObj i = true := by
       cases i <;> simp only [isStructOrUnion, Bool.false_eq_true] at hsu <;> rfl
     have hsubok : RdOk ⟨(advance g Wire.headerBits).data, (advance g Wire.headerBits).bit_offset,
         (advance g Wire.headerBits).bit_offset, some ((readBits (toRd g) Wire.headerBits).1 * 8)⟩ := ⟨e3.1, Nat.le_refl _⟩
     have := ((hG _ hsubok).2.2 hcomp m (by omega))
-    simp only [b1, ok_bind]
-    rw [← e2, ← b2, ← b3]
+    simp only [hc, hc1, hc2, decide_true, decide_false, if_true, if_false, Bool.false_eq_true, b1, ok_bind]
+    rw [← b2, ← b3]
     rcases this.elim with ⟨e0, hy, hx⟩ | ⟨v, k, hy, hx⟩
     · simp only [hy, hx, error_bind]
       exact AgreeWith.intro_err e0
@@ -1086,35 +1113,28 @@ theorem gen_deserialize_delimited (i h : Obj) (x a : Nat) (hs : okT (.delimited 
     rw [← this]
     codec_simp [Gen.Codec.deserialize, Gen.Codec.deserialize_composite, Gen.BitReader.init, Bool.false_and, Obj.inner_type]
   | true =>
+    -- with the header the entry point is the DelimitedType branch of `_deserialize_composite` on the initial reader, whether it
+    -- spells that branch out once more (one frame less) or delegates to it
+    have key : ∃ F, depth i + 1 ≤ F ∧ Gen.Codec.deserialize (.delimited i h x a) data true =
+        (Gen.Codec.deserialize_composite_rec F ⟨data, 0, 0, none⟩ (.delimited i h x a) >>= fun p => Except.ok p.1) := by
+      first
+        | (refine ⟨Py.recursionLimit, hd, ?_⟩
+           codec_simp [Gen.Codec.deserialize, Gen.Codec.deserialize_composite, Gen.BitReader.init, Obj.inner_type, Bool.not_true,
+             Bool.and_false, Bool.false_eq_true, ite_bind]
+           done)
+        | (refine ⟨Py.recursionLimit + 1, by omega, ?_⟩
+           codec_simp [Gen.Codec.deserialize, Gen.Codec.deserialize_composite, Gen.BitReader.init, Obj.inner_type,
+             Obj.delimiter_header_type, Gen.Codec.deserialize_composite_rec, Bool.not_true, Bool.and_false, Bool.false_eq_true,
+             ite_bind]
+           done)
+    obtain ⟨F, hF, hEq⟩ := key
+    have hGs := good (.delimited i h x a) hs hw
+    have hA := (hGs _ (rdOk_initial data hb)).2.2 rfl F (by simp only [depth]; exact hF)
+    rw [toRd_initial] at hA
+    have := top_of_agree hA
+    rw [liftTop_delimited] at this
     simp only [deserializeR, hdl, Bool.not_true, Bool.and_false, Bool.false_eq_true, if_false, if_true]
-    rw [decR_delimited i h x a hs]
-    obtain ⟨c, rfl⟩ := isUnsignedOf_elim hh
-    have hg := rdOk_initial data hb
-    obtain ⟨e1, e2, e3⟩ := read_step ⟨data, 0, 0, none⟩ Wire.headerBits hg
-    have hrem := gen_remaining_bits (advance ⟨data, 0, 0, none⟩ Wire.headerBits) e3.2
-    codec_simp [Gen.Codec.deserialize, Gen.Codec.deserialize_composite, Gen.BitReader.init, Obj.delimiter_header_type, Obj.inner_type,
-      Obj.bit_length, e1, hrem, unwrapDelimR]
-    rw [← toRd_initial, e2]
-    by_cases hc : (readBits (toRd ⟨data, 0, 0, none⟩) Wire.headerBits).1 * 8 >
-        (readBits (toRd ⟨data, 0, 0, none⟩) Wire.headerBits).2.remaining
-    · rw [if_pos (decide_eq_true hc), if_pos hc]
-      obtain ⟨s, hmsg⟩ := message_name_ok i hsu
-      simp only [hmsg, ok_bind]
-      rfl
-    · rw [if_neg (by rw [decide_eq_false hc]; exact Bool.false_ne_true), if_neg hc]
-      obtain ⟨b1, b2, b3⟩ := gen_bounded_subreader (advance ⟨data, 0, 0, none⟩ Wire.headerBits)
-        ((readBits (toRd ⟨data, 0, 0, none⟩) Wire.headerBits).1 * 8)
-      have hsubok : RdOk ⟨(advance ⟨data, 0, 0, none⟩ Wire.headerBits).data, (advance ⟨data, 0, 0, none⟩ Wire.headerBits).bit_offset,
-          (advance ⟨data, 0, 0, none⟩ Wire.headerBits).bit_offset,
-          some ((readBits (toRd ⟨data, 0, 0, none⟩) Wire.headerBits).1 * 8)⟩ := ⟨e3.1, Nat.le_refl _⟩
-      have := ((hGi _ hsubok).2.2 hcomp Py.recursionLimit (by omega))
-      simp only [b1, ok_bind]
-      rw [← e2, ← b2]
-      rcases this.elim with ⟨e0, hy, hx⟩ | ⟨v, k, hy, hx⟩
-      · simp only [hy, hx, error_bind]
-        rfl
-      · simp only [hy, hx, ok_bind, pure_eq_ok]
-        rfl
+    rw [hEq, this]
 
 /-- **`deserialize`**: for every well-formed composite schema object (structure, union, or delimited) whose nesting depth fits
     into CPython's recursion limit, every byte string and both values of `with_delimiter_header`, the generated function returns
